@@ -175,9 +175,9 @@ func guardOf(call ssa.Instruction) string {
 		}
 		var onTrue bool
 		switch {
-		case d.Succs[0] == child || (d.Succs[0].Dominates(child) && !d.Succs[1].Dominates(child)):
+		case edgeControls(d, 0, child):
 			onTrue = true
-		case d.Succs[1] == child || d.Succs[1].Dominates(child):
+		case edgeControls(d, 1, child):
 			onTrue = false
 		default:
 			continue
@@ -203,6 +203,24 @@ func guardOf(call ssa.Instruction) string {
 	}
 	sort.Strings(conds)
 	return strings.Join(conds, " ∧ ")
+}
+
+// edgeControls: every path from d to child leaves d through successor i (so the branch outcome holds at child).
+// The successor must be entered only from d, apart from back edges of loops it heads.
+func edgeControls(d *ssa.BasicBlock, i int, child *ssa.BasicBlock) bool {
+	s := d.Succs[i]
+	if d.Succs[0] == d.Succs[1] {
+		return false
+	}
+	if s != child && !s.Dominates(child) {
+		return false
+	}
+	for _, pr := range s.Preds {
+		if pr != d && !s.Dominates(pr) {
+			return false
+		}
+	}
+	return true
 }
 
 func c13Guards(p *load.Program, r *oblig.Report) {
